@@ -1,6 +1,7 @@
 package props
 
 import (
+	"go/token"
 	"go/types"
 	"strings"
 
@@ -226,11 +227,125 @@ func c04(c *an.Check) {
 	tcLockset(c, a)
 }
 
+// linkResolverIdentity: the de-duplicating list resolver that reports EstablishLinkWithPeer values identifies an
+// established link by the link's own uuid (the key of the controller's uuid table), treats two entries as the same only
+// when they are the same object, and yields that entry's mounted link.
+func linkResolverIdentity(c *an.Check) {
+	p := c.P
+	res := one(pkgFuncsWhere(p, tcPkg, func(f *ssa.Function) bool {
+		return f.Name() == "Resolve" && f.Signature.Recv() != nil && isNamedPtr(f.Signature.Recv().Type(), "establishLinkResolver")
+	}))
+	if res == nil {
+		c.Undecided("PROVENANCE", "transport controller link lookup value identity", nil, "unresolved anchor")
+		return
+	}
+	okK, whyK := false, "the unique-list resolver construction was not found"
+	for _, b := range res.Blocks {
+		for _, ins := range b.Instrs {
+			call, ok := ins.(*ssa.Call)
+			if !ok {
+				continue
+			}
+			f := call.Call.StaticCallee()
+			if f == nil || !strings.HasPrefix(f.Name(), "NewUniqueListXfrmResolver") || len(call.Call.Args) < 3 {
+				continue
+			}
+			lit := func(v ssa.Value) *ssa.Function {
+				switch x := v.(type) {
+				case *ssa.MakeClosure:
+					return x.Fn.(*ssa.Function)
+				case *ssa.Function:
+					return x
+				}
+				return nil
+			}
+			keyFn, eqFn, xfFn := lit(call.Call.Args[0]), lit(call.Call.Args[1]), lit(call.Call.Args[2])
+			if keyFn == nil || eqFn == nil || xfFn == nil {
+				whyK = "the resolver's key / equality / transform functions are not function literals"
+				continue
+			}
+			okK, whyK = true, ""
+			fieldOfParam := func(v ssa.Value, fn *ssa.Function, pi int, field string) bool {
+				u, isLoad := v.(*ssa.UnOp)
+				if !isLoad {
+					return false
+				}
+				fa, isFA := u.X.(*ssa.FieldAddr)
+				return isFA && fa.X == ssa.Value(fn.Params[pi]) && an.FieldOfAddr(fa) != nil && an.FieldOfAddr(fa).Name() == field
+			}
+			for _, kb := range keyFn.Blocks {
+				if ret, isRet := kb.Instrs[len(kb.Instrs)-1].(*ssa.Return); isRet {
+					kc, isCall := ret.Results[0].(*ssa.Call)
+					if !isCall || !kc.Call.IsInvoke() || kc.Call.Method.Name() != "GetUUID" || !fieldOfParam(kc.Call.Value, keyFn, 0, "lnk") {
+						okK, whyK = false, "established links are keyed by something other than the link's own uuid: two links of one transport / peer collapse into one reported value (or one link is reported twice)"
+					}
+				}
+			}
+			for _, eb := range eqFn.Blocks {
+				if ret, isRet := eb.Instrs[len(eb.Instrs)-1].(*ssa.Return); isRet {
+					bo, isBO := ret.Results[0].(*ssa.BinOp)
+					if !isBO || bo.Op != token.EQL || !((bo.X == ssa.Value(eqFn.Params[1]) && bo.Y == ssa.Value(eqFn.Params[2])) || (bo.X == ssa.Value(eqFn.Params[2]) && bo.Y == ssa.Value(eqFn.Params[1]))) {
+						okK, whyK = false, "two table entries are treated as the same value by something other than object identity"
+					}
+				}
+			}
+			for _, xb := range xfFn.Blocks {
+				if ret, isRet := xb.Instrs[len(xb.Instrs)-1].(*ssa.Return); isRet {
+					v := ret.Results[0]
+					if mi, isMI := v.(*ssa.MakeInterface); isMI {
+						v = mi.X
+					}
+					if !fieldOfParam(v, xfFn, 1, "mlnk") {
+						okK, whyK = false, "the value reported for an entry is not that entry's mounted link"
+					}
+				}
+			}
+		}
+	}
+	c.Require(okK, "PROVENANCE", "transport controller reports each established link once, under its own uuid", res, "", 3, "key = v.lnk.GetUUID(); same = (a == b); value = v.mlnk", whyK)
+}
+
 func c06(c *an.Check) {
 	p := c.P
 	a := tcResolve(c)
 	if a == nil {
 		return
+	}
+	linkResolverIdentity(c)
+	// every critical section that changes the link tables wakes the resolvers before it ends: a lost link is otherwise
+	// still reported (and a new one not yet) until some unrelated event
+	for _, w := range []struct {
+		name string
+		fn   *ssa.Function
+	}{{"lost", a.lost}, {"established", a.est}} {
+		fn := w.fn
+		isTableChange := func(i ssa.Instruction) bool {
+			if an.IsCallTo(i, a.cFlush) {
+				return true
+			}
+			if mu, ok := i.(*ssa.MapUpdate); ok && (an.IsFieldLoad(mu.Map, a.linksF) || an.IsFieldLoad(mu.Map, a.byPeerF)) {
+				return true
+			}
+			return false
+		}
+		c.Gate(an.GateSpec{Rule: "MUSTCALL", Construct: "transport controller link-" + w.name + " critical section wakes the link resolvers", Fn: fn,
+			Sink: func(s *an.State, ins ssa.Instruction) bool {
+				_, isRet := ins.(*ssa.Return)
+				return isRet && s.Executed(ins, isTableChange)
+			},
+			Reqs: []an.Req{{Name: "broadcast() called after the tables changed", Holds: func(s *an.State, at ssa.Instruction) bool {
+				var last ssa.Instruction
+				s.Executed(at, func(i ssa.Instruction) bool {
+					if isTableChange(i) {
+						last = i
+					}
+					return false
+				})
+				return last != nil && s.ExecutedSince(at, last, func(i ssa.Instruction) bool {
+					call, ok := i.(*ssa.Call)
+					return ok && len(fn.Params) > 0 && call.Call.Value == ssa.Value(fn.Params[0])
+				})
+			}}}})
 	}
 	// HandleLinkLost flushes only the entry whose link is the one reported
 	c.Gate(an.GateSpec{Construct: "transport controller flushes a lost link", Fn: a.lost,
